@@ -150,7 +150,7 @@ RULES = [
     # the length type named through Const<LEN>: it is the N of this arm exactly when N::USIZE == LEN (obligation)
     ('R-call', r'\bGenericArray::<_, <typenum::Const<(\w+)> as IntoArrayLength>::ArrayLength>::try_from_vec\(',
      r'try_from_vec_checked::<N>(Ghost(\1), '),
-    ('R-call', r'\bGenericArray::try_from_vec\(vec\)\.unwrap_unchecked\(\)', 'unwrap_unchecked(try_from_vec::<N>(vec))'),
+    ('R-call', r'\b(?:GenericArray|Self)::try_from_vec\((\w+)\)\.unwrap_unchecked\(\)', r'unwrap_unchecked(try_from_vec::<N>(\1))'),
     ('R-call', r'(?<![\w:])(?:crate::)?const_transmute\((\w+)\)',
      r'match const_transmute(bits_of_arr(\1), N::usize_()) { PanicOr::Ret(__b) => PanicOr::Ret(ga_of_bits::<N>(__b)), PanicOr::Panic => PanicOr::Panic }'),
 ]
@@ -192,16 +192,18 @@ def generate(g, ex):
 
     # ---- GenericArray::from_array (src/lib.rs) ----
     f = views.find_in_impls(g, ex, 'from_array')
-    if not re.search(r'where Const<U>: IntoArrayLength<ArrayLength = N>', f['sig']):
-        raise ex.Unsupported('from_array: the where-clause tying U to N changed: %s' % f['sig'])
+    pm = re.search(r'\( ?(\w+): \[T; U\],? ?\)', f['sig'])
+    if not pm or not re.search(r'where Const<U>: IntoArrayLength<ArrayLength = N>', f['sig']):
+        raise ex.Unsupported('from_array: the signature / where-clause tying U to N changed: %s' % f['sig'])
+    pa = pm.group(1)
     stats = {}
     body = ex.normalize(f['body'])
     n = ex.statements(body)
     body = ex.apply_rules(body, RULES, stats)
     ex.check_supported('from_array', body, allow=ALLOW)
-    g.emit_fn(Fn('from_array', 'src/lib.rs', f['line'], f['sig'], 'pub fn from_array<N: ArrayLength>(value: Arr) -> (ret: PanicOr<GA>)', body,
-                 ['value.len == N::n()  /* where Const<U>: IntoArrayLength<ArrayLength = N> */'],
-                 [('never-panics', ['C20'], 'ret is Ret'), ('same-elements-in-order', ['C20'], 'ret->Ret_0.elems == value.elems')], stats, n, PROPS))
+    g.emit_fn(Fn('from_array', 'src/lib.rs', f['line'], f['sig'], 'pub fn from_array<N: ArrayLength>(%s: Arr) -> (ret: PanicOr<GA>)' % pa, body,
+                 ['%s.len == N::n()  /* where Const<U>: IntoArrayLength<ArrayLength = N> */' % pa],
+                 [('never-panics', ['C20'], 'ret is Ret'), ('same-elements-in-order', ['C20'], 'ret->Ret_0.elems == %s.elems' % pa)], stats, n, PROPS))
 
     # ---- GenericArray::__from_vec_helper (src/arr.rs, mod alloc_helper) ----
     text = g.src(FILE)
@@ -211,16 +213,18 @@ def generate(g, ex):
     i = m.end() - 1
     block = text[i + 1:ex.match_brace(text, i)]
     f = ex.find_fn(block, '__from_vec_helper', i + 1, text)
-    if not re.search(r'_empty: \[\(\); U\], vec: (?:alloc::vec::)?Vec<T>', f['sig']) or not re.search(r'Const<U>: IntoArrayLength<ArrayLength = N>', f['sig']):
+    pm = re.search(r'\( ?(\w+): \[\(\); U\], (\w+): (?:alloc::vec::)?Vec<T>,? ?\)', f['sig'])
+    if not pm or not re.search(r'Const<U>: IntoArrayLength<ArrayLength = N>', f['sig']):
         raise ex.Unsupported('__from_vec_helper: signature changed: %s' % f['sig'])
+    pe, pv = pm.group(1), pm.group(2)
     stats = {}
     body = ex.normalize(f['body'])
     n = ex.statements(body)
     body = ex.apply_rules(body, RULES, stats)
     ex.check_supported('from_vec_helper', body, allow=ALLOW)
-    g.emit_fn(Fn('from_vec_helper', FILE, f['line'], f['sig'], 'pub fn from_vec_helper<N: ArrayLength, const U: usize>(_empty: [(); U], vec: VecT) -> (r: BoxArr)', body,
-                 ['vec.wf()', 'vec.len == U  /* the macro passes one () per element of the vec! */', 'U == N::n()  /* where Const<U>: IntoArrayLength<ArrayLength = N> */'],
-                 [('same-elements-in-order', ['C20'], 'r.block.content == vec.block.content'), ('n-elements', ['C20'], 'r.block.elems == N::n()')], stats, n, PROPS))
+    g.emit_fn(Fn('from_vec_helper', FILE, f['line'], f['sig'], 'pub fn from_vec_helper<N: ArrayLength, const U: usize>(%s: [(); U], %s: VecT) -> (r: BoxArr)' % (pe, pv), body,
+                 ['%s.wf()' % pv, '%s.len == U  /* the macro passes one () per element of the vec! */' % pv, 'U == N::n()  /* where Const<U>: IntoArrayLength<ArrayLength = N> */'],
+                 [('same-elements-in-order', ['C20'], 'r.block.content == %s.block.content' % pv), ('n-elements', ['C20'], 'r.block.elems == N::n()')], stats, n, PROPS))
     # Const<LEN> names the length type of the arm: checked where the expansion uses it
     g.raw('    pub fn try_from_vec_checked<N: ArrayLength>(Ghost(len): Ghost<usize>, vec: VecT) -> (r: Result<BoxArr, LengthError>)\n'
           '        requires vec.wf(), N::n() == len,\n'
@@ -271,18 +275,20 @@ def generate(g, ex):
     ONCE = ('x-evaluated-once', ['C20'], 'final(log).order =~= seq![0int]')
     # arr![x; N] for ALL N: the local const fn is hoisted (rule R-nested), its array-typed parameter becomes a precondition
     def hoist(body, stats):
-        m = re.search(r'const fn (__do_transmute)<T, N: ArrayLength>\(arr: \[T; (\w+)\]\) -> GenericArray<T, N> \{ (unsafe \{ .*? \}) \} ', body)
+        m = re.search(r'const fn (\w+)<T, N: ArrayLength>\((\w+): \[T; (\w+)\]\) -> GenericArray<T, N> \{ (unsafe \{ .*? \}) \} ', body)
         if not m:
             return body
         stats['R-nested'] = 1
-        inner = ex.apply_rules(m.group(3), RULES, {})
+        fn_name, par, ln, inner = m.groups()
+        inner = ex.apply_rules(inner, RULES, {})
         ex.check_supported('do_transmute', inner, allow=ALLOW)
-        g.emit_fn(Fn('do_transmute', FILE, arr[1][2], 'local `const fn __do_transmute` of macro_rules! arr arm `(%s)`' % arr[1][0],
-                     'pub fn do_transmute<N: ArrayLength>(arr: Arr, %s: usize) -> (ret: PanicOr<GA>)' % m.group(2), inner,
-                     ['arr.len == %s  /* parameter type [T; %s] */' % (m.group(2), m.group(2))],
-                     [('panics-iff-lengths-differ', ['C20'], 'ret is Panic <==> %s != N::n()' % m.group(2)),
-                      ('same-elements-in-order', ['C20'], 'ret is Ret ==> ret->Ret_0.elems == arr.elems')], {'R-nested': 1}, ex.statements(inner), PROPS))
-        return body[:m.start()] + body[m.end():]
+        g.emit_fn(Fn('do_transmute', FILE, arr[1][2], 'local `const fn %s` of macro_rules! arr arm `(%s)`' % (fn_name, arr[1][0]),
+                     'pub fn do_transmute<N: ArrayLength>(%s: Arr, %s: usize) -> (ret: PanicOr<GA>)' % (par, ln), inner,
+                     ['%s.len == %s  /* parameter type [T; %s] */' % (par, ln, ln)],
+                     [('panics-iff-lengths-differ', ['C20'], 'ret is Panic <==> %s != N::n()' % ln),
+                      ('same-elements-in-order', ['C20'], 'ret is Ret ==> ret->Ret_0.elems == %s.elems' % par)], {'R-nested': 1}, ex.statements(inner), PROPS))
+        rest = body[:m.start()] + body[m.end():]
+        return re.sub(r'\b' + fn_name + r'::<_, N>\(', '__do_transmute::<_, N>(', rest)
 
     exp = transcribe(arr[1][1], {}, {'x': 'ev(log, 0)', 'N': 'N'}, ex)
     arm_fn('arr_repeat_ty', 'arr', arr[1], exp, 'pub fn arr_repeat_ty<N: ArrayLength>(log: &mut Log) -> (ret: PanicOr<GA>)', [EMPTY],
